@@ -1159,6 +1159,49 @@ pub fn run_transport(cfg: &TransportCfg, sc: &mut Sc) {
         }
         check_nonces(sc, &dirs);
     }
+    // the last usable nonce, deliberately: with both counters of a direction at 2^64-2 and the keys in step, the message
+    // is written and delivered (2^64-2 is an ordinary nonce: only 2^64-1 is reserved); both counters then stand at
+    // 2^64-1, where a write and a read are refused with the exhaustion error and move nothing (C09, C05, C04)
+    for d in 0..2usize {
+        if (oneway && d == 1) || dirs[d].send_key != dirs[d].recv_key {
+            continue;
+        }
+        let (w, rd) = if d == 0 { (1u32, 2u32) } else { (2u32, 1u32) };
+        sc.ex.set_send_nonce(w, u64::MAX - 1);
+        sc.ex.set_recv_nonce(rd, u64::MAX - 1);
+        dirs[d].send_n = u64::MAX - 1;
+        dirs[d].recv_n = u64::MAX - 1;
+        let plen = 1 + r.below(40);
+        let p = r.bytes(plen);
+        let o = sc.ex.t_write(w, &p, p.len() + 16);
+        sc.count("t.last_usable_nonce");
+        match o.bytes().map(<[u8]>::to_vec) {
+            Some(m) => {
+                dirs[d].send_n = u64::MAX;
+                let o2 = sc.ex.t_read(rd, &m, p.len());
+                if o2.bytes() == Some(p.as_slice()) {
+                    dirs[d].recv_n = u64::MAX;
+                } else {
+                    sc.viol("C09", format!("{}: the message under the last usable nonce 2^64-2 was refused by the reader: {o2:?}", cfg.name));
+                    sc.viol("C05", format!("{}: the next in-order message (nonce 2^64-2) was rejected: {o2:?}", cfg.name));
+                    sc.viol("C04", format!("{}: the peer's genuine message under nonce 2^64-2 was rejected: {o2:?}", cfg.name));
+                }
+            },
+            None => sc.viol("C09", format!("{}: a write at sending nonce 2^64-2 was refused: {o:?}", cfg.name)),
+        }
+        check_nonces(sc, &dirs);
+        if dirs[d].send_n == u64::MAX && dirs[d].recv_n == u64::MAX {
+            let o = sc.ex.t_write(w, b"late", 64);
+            if o.err() != Some("State(Exhausted)") {
+                sc.viol("C09", format!("{}: write at sending nonce 2^64-1 gave {o:?}", cfg.name));
+            }
+            let o = sc.ex.t_read(rd, &[0x5au8; 40], 64);
+            if o.err() != Some("State(Exhausted)") {
+                sc.viol("C09", format!("{}: read at receiving nonce 2^64-1 gave {o:?}", cfg.name));
+            }
+            check_nonces(sc, &dirs);
+        }
+    }
     if oneway {
         let o = sc.ex.t_write(2, b"x", 64);
         if o.err() != Some("State(OneWay)") {
